@@ -380,7 +380,17 @@ def worker(job):
     rng = random.Random(job['seed'])
     if 'replay' in job:
         rp = job['replay']
-        if 'family' in rp:
+        if 'schemeless_family' in rp:
+            outs = {}
+            for sp in rp['schemeless_family']:
+                try:
+                    info = URLInfo.parse(sp, default_scheme='http')
+                    outs.setdefault((info.scheme, info.url), []).append(sp)
+                except ValueError as e:
+                    outs.setdefault(('ValueError', repr(e)[:60]), []).append(sp)
+            if len(outs) > 1 or any(k[0] != 'http' for k in outs):
+                part.violation('schemeless-family-not-unified/replay', {'outputs': {str(k): v for k, v in outs.items()}}, rp)
+        elif 'family' in rp:
             check_family(URLInfo, rp['family'], rp.get('desc'), part)
         else:
             check_one(URLInfo, rp['url'], rp.get('encoding', 'utf-8'), part)
@@ -408,6 +418,31 @@ def worker(job):
         res = check_family(URLInfo, spellings, desc, part)
         if i % 499 == 0 and res:
             part.sample({'family': spellings, 'normalized': sorted(res)})
+    # scheme-less "host:port/path" forms, as start URLs are given on the command line (parsed with a default scheme): the
+    # spellings differ in the case of the host only
+    for i in range(job.get('n_families', 0) // 4):
+        labels = rng.choice([['localhost'], ['localhost'], ['example', 'com'], ['a', 'b', 'test']])   # (another single label would be read as a scheme)
+        port = rng.choice(['', ':8080', ':80', ':8443'])
+        if len(labels) == 1 and labels[0] != 'localhost' and not port:
+            port = ':8080'
+        path = rng.choice(['', '/', '/x', '/a/b.html?q=1'])
+        spellings = []
+        for _ in range(4):
+            host = '.'.join(''.join(c.upper() if rng.random() < 0.5 else c for c in lab) for lab in labels)
+            spellings.append(host + port + path)
+        spellings.append('.'.join(labels) + port + path)
+        outs = {}
+        for sp in spellings:
+            try:
+                info = URLInfo.parse(sp, default_scheme='http')
+                outs.setdefault((info.scheme, info.url), []).append(sp)
+            except ValueError as e:
+                outs.setdefault(('ValueError', repr(e)[:60]), []).append(sp)
+        part.evaluations += 1
+        part.count('schemeless_families')
+        if len(outs) > 1 or any(k[0] != 'http' for k in outs):
+            part.violation('schemeless-family-not-unified/' + ('localhost' if labels == ['localhost'] else 'name'),
+                           {'outputs': {str(k): v for k, v in outs.items()}}, {'schemeless_family': spellings})
     return part.dump()
 
 
